@@ -14,6 +14,7 @@ and the file system are trusted/modelled runtime (see Props/C01, Props/C08 heade
 -/
 import PoetryVerif.Model.Basic
 import PoetryVerif.Model.Generated
+import PoetryVerif.Model.Select
 
 namespace Poetry.Build
 
@@ -412,6 +413,31 @@ def wheelOps (p : WheelPlan) : List Op :=
   ++ copyFileScriptsOps p.dataFolder p.scripts
   ++ copyDistInfoOps p.diSource p.distInfo p.diFiles
 
+/-! ### when are the builder's own targets pairwise distinct? (decidable condition on the configuration) -/
+
+/-- archive path `t` lies below the archive directory `d` -/
+def under (d t : String) : Bool := (d.toList ++ ['/']).isPrefixOf t.toList
+
+/-- what `build` writes before file scripts and dist-info: the `.pth` (editable) or the selected files' targets -/
+def bodyTargets (p : WheelPlan) : List String :=
+  if p.editable then [p.moduleName ++ ".pth"] else p.toAdd.map (·.target)
+
+/-- no two sources map to one archive name: distinct targets of the selected files, none of them inside the `.data` /
+`.dist-info` directories, distinct script base names, distinct dist-info files none of which is RECORD, and the two
+directory names not nested -/
+def ConfigDistinct (p : WheelPlan) : Prop :=
+  (bodyTargets p).Nodup ∧
+  (∀ t ∈ bodyTargets p, under p.dataFolder t = false ∧ under p.distInfo t = false) ∧
+  (p.scripts.map (·.baseName)).Nodup ∧
+  (p.diFiles.map (fun f => posix f.rel)).Nodup ∧
+  "RECORD" ∉ p.diFiles.map (fun f => posix f.rel) ∧
+  under p.distInfo (p.dataFolder ++ "/") = false ∧ under p.dataFolder (p.distInfo ++ "/") = false
+
+instance (p : WheelPlan) : Decidable (ConfigDistinct p) := by unfold ConfigDistinct; exact inferInstance
+
+def scriptTargets (p : WheelPlan) : List String := p.scripts.map (fun s => p.dataFolder ++ "/scripts/" ++ s.baseName)
+def diTargets (p : WheelPlan) : List String := p.diFiles.map (fun f => p.distInfo ++ "/" ++ posix f.rel)
+
 def buildWheel (H : String → String) (p : WheelPlan) : St :=
   writeRecord H p.distInfo (run {} (wheelOps p))
 
@@ -574,5 +600,46 @@ def setupPackageData (pkgName : String) (walk : List WalkDir) : List (String × 
   (sortStr (pairs.map (·.1))).eraseDups.map fun k =>
     let vs := (pairs.filter (fun kv => kv.1 == k)).map (·.2)
     (k, if Gen.sdistPackageDataSorted then sortStr vs else vs)
+
+/-! ### include rules given by glob patterns: which left-overs of an earlier build can be selected -/
+
+/-- a `packages` / `include` entry (or a fixed pattern of `_get_legal_files`) as a glob rule: `base` = project root
+or the `from` directory, `pat` = the parsed glob (`Select.parsePattern`), `isPackage` = PackageInclude -/
+structure GlobSpec where
+  base : PathKey
+  pat : Select.Pattern
+  isPackage : Bool
+  target : PathKey → String
+
+/-- the files a rule contributes (`find_files_to_add`, per include): an element that is a file and matches, or any
+file below an element that is a directory; nothing with a `__pycache__` component; bytecode (`.pyc`) only as a
+directly matching element of an explicit include (`is_excluded` is not consulted for those). -/
+def GlobSpec.sel (g : GlobSpec) (p : PathKey) : Bool :=
+  !p.contains Gen.pycacheDirName &&
+  match Select.stripBase g.base p with
+  | none => false
+  | some rel =>
+    (Select.globMatch g.pat rel false && !(g.isPackage && Select.isBytecode p)) ||
+    (!Select.isBytecode p && (List.range rel.length).any fun k => Select.globMatch g.pat (rel.take k) true)
+
+def globRule (g : GlobSpec) : IncludeRule := { sel := g.sel, target := g.target }
+
+/-- can the pattern enter a directory called `D` directly below its base? -/
+def patternReaches (pat : Select.Pattern) (D : String) : Bool :=
+  match pat.segs with
+  | [] => true                          -- `./`: the base itself is the element, everything below it is taken
+  | .dstar :: _ => true
+  | .wild w :: _ => Select.fnmatch w D
+
+/-- decidable condition on one rule: it cannot select anything below the top-level directory `D` -/
+def GlobSpec.avoids (g : GlobSpec) (D : String) : Bool :=
+  match g.base with
+  | [] => !patternReaches g.pat D
+  | b :: _ => b != D
+
+/-- a left-over of an earlier build: bytecode cache, or something below one of the given top-level names
+(`dist`, `build`, `<name>.egg-info`) -/
+def isLeftover (tops : List String) (p : PathKey) : Bool :=
+  p.contains Gen.pycacheDirName || match p with | D :: _ :: _ => tops.contains D | _ => false
 
 end Poetry.Build
